@@ -177,6 +177,11 @@ def mutations(design, rng, limit_per_class):
                         mmf["sigs"].append([f"zzfn{kf}", w_])
                         mmf["insts"][ii]["conns"][fn] = ["sig", f"zzfn{kf}"]
                     add("flattened-names-instead-of-bundle", site, dfl, "extra-connection")
+                    if inst["of"][0] == "mod":
+                        # ... the same, with the child elaborated by an EARLIER call (its bundle ports are flattened in place by then)
+                        dfe = copy.deepcopy(dfl)
+                        dfe["pre_elaborate"] = [inst["of"][1]]
+                        add("flattened-names-instead-of-bundle-child-elaborated", site, dfe, "extra-connection")
             if e[0] == "anon":
                 # width mismatch inside an anonymous-bundle member, missing member, extra member
                 k = sorted(e[1])[0]
@@ -331,6 +336,11 @@ def build_mutant(design):
         s2 = topm.add(h.Signal(width=2), name="zzc2")
         topm.add(x1()(a=s1, b=s1), name="zzx1")
         topm.add(x2()(a=s1, b=s2, c=s1), name="zzx2")
+    for mname in design.get("pre_elaborate", []):
+        try:
+            h.elaborate(built.modules[mname])
+        except Exception:
+            pass
     for mname, attr, newname in design.get("rename", []):
         obj = built.objs.get((mname, attr))
         if obj is not None:
